@@ -103,6 +103,14 @@ def total_over_scalar(ctx, rule, sm, an, ty, points=()):
         if prove_obligation(pdb, o.cond):
             rep.ob(rule, inst, True)
             continue
+        from .base import decide_site, describe_env
+        dec, how = decide_site(ctx, o)
+        if dec is True:
+            rep.ob(rule, inst, True)
+            continue
+        if dec is False:
+            rep.ob(rule, inst, False, "panic site (%s, line %s) in %s is reached and fails for %s" % (o.kind, o.line, short(o.fn), describe_env(how)), where)
+            continue
         try:
             cells, _n = cell_table(pdb, v, an, ty)
         except CellsRefused as e:
